@@ -17,6 +17,7 @@ import (
 	"runtime"
 	"sort"
 	"strings"
+	"syscall"
 	"testing"
 	"time"
 
@@ -97,6 +98,8 @@ type C18Case struct {
 	// ".<file>.swp", ... as a file or as a directory. They are "extra files": nothing is owed to them, the factory clauses
 	// and the protected files are owed as always.
 	Siblings []c18Sibling `json:"siblings,omitempty"`
+	// BlacklistLink: (no blacklist file) the blacklist path is a symbolic link to a file in the user's tree that does not exist
+	BlacklistLink bool `json:"blacklist_link,omitempty"`
 }
 
 type c18Sibling struct {
@@ -121,6 +124,10 @@ func snapshot(root string) map[string]string {
 		rel, _ := filepath.Rel(root, path)
 		if info.IsDir() {
 			out[rel+"/"] = "dir"
+			return nil
+		}
+		if info.Mode()&(os.ModeNamedPipe|os.ModeSocket|os.ModeDevice) != 0 {
+			out[rel] = "special:" + info.Mode().Type().String() // (reading a pipe would block)
 			return nil
 		}
 		data, _ := os.ReadFile(path)
@@ -254,6 +261,15 @@ func buildC18(c *C18Case) error {
 		if err := writeFileMk("hidi-config/device blacklist.txt", *c.Blacklist); err != nil {
 			return err
 		}
+	} else if c.BlacklistLink {
+		// the blacklist is a symbolic link whose target (in the user's tree) is gone: it is not "missing", and creating the
+		// file through the link would put a new file below user/
+		target, _ := filepath.Abs("hidi-config/user/keyboard/my blacklist.txt")
+		_ = os.MkdirAll(filepath.Dir(target), 0o777)
+		_ = os.MkdirAll("hidi-config", 0o777)
+		if err := os.Symlink(target, "hidi-config/device blacklist.txt"); err != nil {
+			return err
+		}
 	}
 	for _, l := range c.Links {
 		if _, err := os.Lstat(l.Factory); err != nil {
@@ -305,6 +321,47 @@ func buildC18(c *C18Case) error {
 			_ = os.Remove(l.User)
 			_ = os.Remove(l.Factory)
 			if err := os.Symlink(target, l.Factory); err != nil {
+				return err
+			}
+		case "to-dir", "self", "through-file":
+			// other things a link at a factory path may lead to: a directory, itself, a path that runs through a regular file
+			target, _ := filepath.Abs("hidi-config/user/keyboard")
+			_ = os.MkdirAll(target, 0o777)
+			switch l.Kind {
+			case "self":
+				target = filepath.Base(l.Factory)
+			case "through-file":
+				if err := os.WriteFile(l.User, l.Data, 0o666); err != nil {
+					return err
+				}
+				abs, _ := filepath.Abs(l.User)
+				target = filepath.Join(abs, "x.toml")
+			}
+			_ = os.Remove(l.Factory)
+			if err := os.Symlink(target, l.Factory); err != nil {
+				return err
+			}
+		case "dir-at-file":
+			// something of the wrong kind under a factory name: a directory (with content) where the file belongs ...
+			_ = os.Remove(l.Factory)
+			if err := os.MkdirAll(filepath.Join(l.Factory, "inner"), 0o777); err != nil {
+				return err
+			}
+			_ = os.WriteFile(filepath.Join(l.Factory, "inner", "x.toml"), l.Data, 0o666)
+		case "fifo-at-file":
+			// ... a named pipe (opening it would block for ever) ...
+			_ = os.Remove(l.Factory)
+			if err := syscall.Mkfifo(l.Factory, 0o666); err != nil {
+				return err
+			}
+		case "file-at-dir":
+			// ... or a plain file where a factory directory belongs
+			dir := filepath.Dir(l.Factory)
+			if filepath.Base(dir) == "factory" {
+				continue
+			}
+			_ = os.RemoveAll(dir)
+			if err := os.WriteFile(dir, l.Data, 0o666); err != nil {
 				return err
 			}
 		case "sym":
@@ -611,7 +668,7 @@ func genC18(t *rapid.T) C18Case {
 	}
 	if c.CrashKind == "" && rapid.IntRange(0, 7).Draw(t, "linked") == 0 {
 		f := files[rapid.IntRange(0, len(files)-1).Draw(t, "linkedFactory")]
-		c.Links = append(c.Links, c18Link{Kind: rapid.SampledFrom([]string{"hard", "hard", "sym", "dangling", "dangling-dir", "dir-into-user", "dir-dangling"}).Draw(t, "linkKind"), Factory: f.Path,
+		c.Links = append(c.Links, c18Link{Kind: rapid.SampledFrom([]string{"hard", "hard", "sym", "dangling", "dangling-dir", "dir-into-user", "dir-dangling", "to-dir", "self", "through-file", "dir-at-file", "fifo-at-file", "file-at-dir"}).Draw(t, "linkKind"), Factory: f.Path,
 			User: "hidi-config/user/keyboard/my_copy.toml", Data: append([]byte("# my own version\n"), genBytes(t, "linkedData")...)})
 	}
 	if rapid.IntRange(0, 3).Draw(t, "siblings") == 0 {
@@ -638,6 +695,8 @@ func genC18(t *rapid.T) C18Case {
 	if rapid.IntRange(0, 2).Draw(t, "hasBlacklist") > 0 {
 		b := genBytes(t, "blacklist")
 		c.Blacklist = &b
+	} else if c.CrashKind == "" && rapid.IntRange(0, 3).Draw(t, "blacklistLink") == 0 {
+		c.BlacklistLink = true
 	}
 	for _, n := range []string{"hidi-config/notes.txt", "hidi-config/backup/factory/keyboard/0_default.toml"} {
 		if rapid.IntRange(0, 3).Draw(t, "hasExtra") == 0 {
